@@ -60,6 +60,20 @@ class FakePlayback(object):
         self.playback_outputs = ('act', rid)
 
 
+def _unreadable(rid):
+    raise TypeError('unreadable ' + rid)
+
+
+class Unreadable(object):
+    """pickles (in the worker), cannot be unpickled (by the parent): e.g. an exception class with required constructor
+    arguments among the replayed outputs"""
+    def __init__(self, rid):
+        self.rid = rid
+
+    def __reduce__(self):
+        return (_unreadable, (self.rid,))
+
+
 class ConsumerError(Exception):
     pass
 
@@ -138,7 +152,10 @@ def main():
         note('A %s %.6f %.6f' % (rid, t0, time.time()))       # the player call is over (it returns or raises now)
         if k == 'playerRaises':
             raise RuntimeError(b['m'])
-        return FakePlayback(rid)
+        pb = FakePlayback(rid)
+        if k == 'unreadable':
+            pb.carried = Unreadable(rid)
+        return pb
 
     def extractor(outs):
         side, rid = outs
@@ -153,7 +170,7 @@ def main():
             raise RuntimeError(bb['m'])
         if k == 'bare':
             return EqualityStatus[bb['s']]
-        if k in ('verdict', 'late'):
+        if k in ('verdict', 'late', 'unreadable'):
             return ComparatorResult(EqualityStatus[bb['s']], bb['m'])
         return ComparatorResult(EqualityStatus.Equal, 'unscripted')
 
